@@ -7,7 +7,9 @@ import (
 	"os"
 	"path/filepath"
 
+	rProto "github.com/thomasjungblut/go-sstables/recordio/proto"
 	"github.com/thomasjungblut/go-sstables/skiplist"
+	sProto "github.com/thomasjungblut/go-sstables/sstables/proto"
 	"github.com/thomasjungblut/go-sstables/sstables"
 )
 
@@ -20,6 +22,8 @@ type mergeCase struct {
 	Ranges [][2]int   `json:"ranges"`
 	Faults []mFault   `json:"faults"`
 	Super  bool       `json:"super"`
+	V0     []int      `json:"v0"`     // tables written in the legacy (version 0) layout: no metadata file, values wrapped in a DataEntry message (only tables without nil / empty values)
+	Nest   string     `json:"nest"`   // "" flat stack | "left": Super(Super(t0..tk-1), tk..) | "pairs": Super(Super(t0,t1), Super(t2,t3), ..) | "right": Super(t0, Super(t1..))
 	Loader string     `json:"loader"` // index loader of the input readers: "" default | disk | disk-shared (ONE loader value for all tables) | skiplist | map
 }
 
@@ -103,6 +107,43 @@ func (f *failingWriter) WriteNext(k, v []byte) error {
 	}
 	f.n++
 	return f.inner.WriteNext(k, v)
+}
+
+// rewriteAsV0 replaces the table in dir by the same content in the legacy layout the readers still support (version 0: data.rio holds DataEntry
+// messages, index.rio IndexEntry messages without checksum, there is neither a metadata file nor a bloom filter)
+func rewriteAsV0(dir string, t [][2]any, keys [][]byte, vb func(string) []byte) error {
+	for _, f := range []string{sstables.MetaFileName, sstables.BloomFileName, sstables.DataFileName, sstables.IndexFileName} {
+		if err := os.Remove(filepath.Join(dir, f)); err != nil && !os.IsNotExist(err) {
+			return err
+		}
+	}
+	dw, err := rProto.NewWriter(rProto.Path(filepath.Join(dir, sstables.DataFileName)))
+	if err != nil {
+		return err
+	}
+	iw, err := rProto.NewWriter(rProto.Path(filepath.Join(dir, sstables.IndexFileName)))
+	if err != nil {
+		return err
+	}
+	if err := dw.Open(); err != nil {
+		return err
+	}
+	if err := iw.Open(); err != nil {
+		return err
+	}
+	for _, e := range t {
+		off, err := dw.Write(&sProto.DataEntry{Value: vb(e[1].(string))})
+		if err != nil {
+			return err
+		}
+		if _, err := iw.Write(&sProto.IndexEntry{Key: keys[int(e[0].(float64))], ValueOffset: off}); err != nil {
+			return err
+		}
+	}
+	if err := dw.Close(); err != nil {
+		return err
+	}
+	return iw.Close()
 }
 
 func runMerge(args []string) error {
@@ -217,6 +258,19 @@ func runMerge(args []string) error {
 			if err := w.Close(); err != nil {
 				return err
 			}
+			for _, v0 := range c.V0 {
+				plainVals := len(t) > 0
+				for _, e := range t {
+					if tok := e[1].(string); tok == "NIL" || tok == "EMPTY" {
+						plainVals = false
+					}
+				}
+				if v0 == ti && plainVals {
+					if err := rewriteAsV0(dir, t, keys, vb); err != nil {
+						return fmt.Errorf("writing v0 table: %w", err)
+					}
+				}
+			}
 			ropts := []sstables.ReadOption{sstables.ReadBasePath(dir), sstables.ReadWithKeyComparator(cmp)}
 			switch c.Loader {
 			case "disk":
@@ -255,7 +309,24 @@ func runMerge(args []string) error {
 		tr.emit(M{"t": "tables", "tabs": tabList, "nkeys": len(keys)})
 
 		if c.Super {
-			sup := sstables.NewSuperSSTableReader(readers, cmp)
+			members := readers
+			switch {
+			case c.Nest == "left" && len(readers) >= 2:
+				k := (len(readers) + 1) / 2
+				members = append([]sstables.SSTableReaderI{sstables.NewSuperSSTableReader(readers[:k], cmp)}, readers[k:]...)
+			case c.Nest == "right" && len(readers) >= 2:
+				members = []sstables.SSTableReaderI{readers[0], sstables.NewSuperSSTableReader(readers[1:], cmp)}
+			case c.Nest == "pairs" && len(readers) >= 2:
+				members = nil
+				for i := 0; i < len(readers); i += 2 {
+					j := i + 2
+					if j > len(readers) {
+						j = len(readers)
+					}
+					members = append(members, sstables.NewSuperSSTableReader(readers[i:j], cmp))
+				}
+			}
+			sup := sstables.NewSuperSSTableReader(members, cmp)
 			for _, p := range c.Probes {
 				ok, err := sup.Contains(keys[p])
 				r := fmt.Sprint(ok)
